@@ -64,6 +64,10 @@ func runP1Big(args []string) error {
 		anyNonEmpty := false
 		for i := 0; i < nf; i++ {
 			name := fmt.Sprintf("%02d-%s", i, uniNames[rng.Intn(len(uniNames))])
+			if i > 0 && (i+idx)%6 == 5 {
+				// a protected file whose name is another protected file's name plus a temporary-file / backup suffix
+				name = names[i-1] + []string{".tmp", "~", ".bak", ".new", ".part"}[rng.Intn(5)]
+			}
 			sz := []int{0, 1, 2, 7, 100, 1000, 5000, 16383, 16384, 16385, 20000 + rng.Intn(50000)}[rng.Intn(11)]
 			if nf > 12 && sz > 5000 {
 				sz = rng.Intn(3000)
@@ -98,8 +102,8 @@ func runP1Big(args []string) error {
 		}
 		a.Others["readme.txt"] = []byte("bystander")
 		for i, n := range names { // siblings with derived names (temporary-file / backup conventions): Repair must leave them alone
-			if i < 4 {
-				a.Others[n+[]string{".tmp", "~", ".bak", ".new"}[i]] = []byte("sibling of " + n)
+			if sib := n + []string{".tmp", "~", ".bak", ".new"}[i%4]; i < 4 && !hasKey(prot, sib) {
+				a.Others[sib] = []byte("sibling of " + n)
 			}
 		}
 		a.Others["other/deep.bin"] = []byte{1}
